@@ -216,6 +216,11 @@ func (c06Sys) Step(s *c06State, l engine.Letter) (*c06State, string, *engine.Vio
 		if v, _ := world.Attr(evs[0], "l1_sequence"); v != strconv.FormatUint(d.seq, 10) {
 			return c, "accepted", viol("next-sequence-is-processed", "event names sequence %s", v)
 		}
+		for k, w := range map[string]string{"sender": msg.From, "recipient": msg.To, "denom": msg.Amount.Denom, "base_denom": msg.BaseDenom, "amount": msg.Amount.Amount.String(), "finalize_height": strconv.FormatUint(msg.Height, 10)} {
+			if got, ok := world.Attr(evs[0], k); !ok || got != w {
+				return c, "accepted", viol("next-sequence-is-processed", "finalize_token_deposit event: %s=%q, the relayed deposit says %q", k, got, w)
+			}
+		}
 		wevs := world.EventsOfType(res.Events, "initiate_token_withdrawal")
 		cloneBal()
 		c.next = s.next + 1
